@@ -101,7 +101,7 @@ pub const ENTRIES: &[&str] = &[
     "sm2.pk.from_hex_string(text)", "sm2.pk.from_public_key_der", "sm2.pk.from_public_key_pem", "sm2.pk.from_str", "sm2.sk.new", "sm2.sk.from_hex_string(hex)", "sm2.sk.from_hex_string(text)", "sm2.sk.from_pkcs8_der",
     "sm2.sk.from_pkcs8_pem", "sm2.compute_za(id)", "sm2.kdf(z)", "sm2.kdf(klen)", "sm4.cipher.new", "sm4.cipher.encrypt", "sm4.cipher.decrypt", "sm4.mode.new", "sm4.mode.encrypt(data)", "sm4.mode.decrypt(data)",
     "sm4.mode.encrypt(iv)", "sm4.mode.decrypt(iv)", "sm9.decrypt(ct)", "sm9.decrypt(id)", "sm9.verify_sign(h,S)", "sm9.verify_sign(id,msg)", "sm9.mod_n_from_hash", "sm9.exch_step_1b(R_A)", "sm9.exch_step_2a(R_B)",
-    "sm9.encrypt(msg<=255)", "sm9.sign(msg)", "sm2.sign(msg)", "sm2.encrypt(msg)",
+    "sm9.encrypt(msg<=255)", "sm9.sign(msg)", "sm2.sign(msg)", "sm2.encrypt(msg)", "sm4.mode.encrypt(mode,iv,data)", "sm4.mode.decrypt(mode,iv,data)",
 ];
 
 fn run_entry(entry: &str, inp: &[u8]) -> (Outcome<()>, Expect) {
@@ -202,6 +202,14 @@ fn run_entry(entry: &str, inp: &[u8]) -> (Outcome<()>, Expect) {
             let (r, _) = with_sm2_candidates((0..8u64).map(|i| to32(&BigUint::from(0x9191 + i))).collect(), || unit(f.pk.encrypt(m, inp.len() % 2 == 0, Sm2Model::C1C3C2)));
             (match r { Ok(Ok(())) => Outcome::Ok(()), Ok(Err(e)) => Outcome::Err(e), Err(p) => Outcome::Panic(p) }, Some(true))
         }
+        "sm4.mode.encrypt(mode,iv,data)" | "sm4.mode.decrypt(mode,iv,data)" => {
+            // first byte: mode, next 16: IV (a shorter remainder is offered as an IV of the wrong length), rest: data
+            let mode = inp.first().copied().unwrap_or(0) as usize;
+            let (iv, data) = if inp.len() >= 17 { (&inp[1..17], &inp[17..]) } else { (&inp[inp.len().min(1)..], &[][..]) };
+            let enc = entry.starts_with("sm4.mode.encrypt");
+            let o = outcome(|| unit(Sm4CipherMode::new(&[9u8; 16], sm4mode(mode)).and_then(|c| if enc { c.encrypt(data, iv) } else { c.decrypt(data, iv) })));
+            (o, if iv.len() != 16 { Some(false) } else if enc || mode % 4 != 0 { Some(true) } else { None })
+        }
         _ => (Outcome::Err("unknown entry".into()), None),
     }
 }
@@ -273,21 +281,29 @@ pub fn valid_artefact(entry: &str) -> Option<Vec<u8>> {
         "sm9.decrypt(ct)" => f.sm9_ct.clone(),
         "sm9.verify_sign(h,S)" => [&to32(&f.sm9_h)[..], &f.sm9_s[..]].concat(),
         "sm9.exch_step_1b(R_A)" | "sm9.exch_step_2a(R_B)" => r9::g1_bytes(&r9::p1_mul(&BigUint::from(99u32))).unwrap(),
+        "sm4.mode.encrypt(mode,iv,data)" | "sm4.mode.decrypt(mode,iv,data)" => {
+            // CTR with a counter block three increments away from 2^128
+            let mut v = vec![3u8];
+            v.extend_from_slice(&[0xFF; 15]);
+            v.push(0xFD);
+            v.extend((0..70u8).map(|i| i.wrapping_mul(37)));
+            v
+        }
         _ => return None,
     })
 }
 
 pub fn run(ctx: &Ctx) {
     ctx.set_rule(
-        "a case is (entry point, byte string): for each of the 40 entry points every length 0..=200 x {0x00.., 0xFF.., pseudo-random}; every truncation and every single-byte corruption (xor 0x01, xor 0x80, set 0x00, set 0xFF) of a valid artefact for the 19 entries that \
-         have one (signature, four ciphertext framings, ASN.1 ciphertext, SEC1/hex/DER/PEM keys, SM9 ciphertext, (h,S), exchange points); proptest byte strings up to 600 bytes; SM2 private keys {0, 1, 2, n-3, n-2, n-1, n, n+1, p, 2^255, 2^256-1}: whatever the constructor accepts must sign, \
+        "a case is (entry point, byte string): for each of the 42 entry points every length 0..=200 x {0x00.., 0xFF.., pseudo-random}; every truncation and every single-byte corruption (xor 0x01, xor 0x80, set 0x00, set 0xFF) of a valid artefact for the 19 entries that \
+         have one (signature, four ciphertext framings, ASN.1 ciphertext, SEC1/hex/DER/PEM keys, SM9 ciphertext, (h,S), exchange points, an SM4-CTR call whose counter wraps); SM4 mode calls with IVs ending in 0..16 bytes 0xFF; proptest byte strings up to 600 bytes; SM2 private keys {0, 1, 2, n-3, n-2, n-1, n, n+1, p, 2^255, 2^256-1}: whatever the constructor accepts must sign, \
          decrypt and encrypt within a retry budget of 24 candidates (RNG hook). Oracle: outcome in {Ok, Err}; a panic (incl. arithmetic overflow, index, unwrap) or an exhausted retry budget is a violation; where the entry has an unambiguous validity rule (lengths, decodability) the error channel must report it. \
          Non-trivial: every case (all inputs are untrusted bytes).",
     );
     ctx.assume("public helpers without an error channel that the statement does not list (ZUC::new, EEA/EIA outside their stated preconditions, SM9 Point::from_hex, SM9 encrypt beyond 255 bytes, xor_bytes) are exercised only on their documented domain");
     ctx.assume("a hang is reported by the wall-clock watchdog as inconclusive (exit 2), never as a violation; retry loops are made finite by the candidate hook");
 
-    ctx.exhaustive("every_length_0_200", "40 entry points x every length 0..=200 x 3 fills", || {
+    ctx.exhaustive("every_length_0_200", "42 entry points x every length 0..=200 x 3 fills", || {
         let mut v = Vec::new();
         for e in ENTRIES {
             for len in 0..=200usize {
@@ -350,6 +366,32 @@ pub fn run(ctx: &Ctx) {
             };
             Call { entry, input: Hex(input) }
         })
+    }, check_call);
+
+    ctx.exhaustive("sm4_iv_carry_family", "SM4 modes with IVs ending in t = 0..=16 bytes 0xFF (last byte also 0xFE, 0xFD, 0xF0: the counter carries or wraps inside the message) x data of 0..=100 bytes, encrypt and decrypt", || {
+        let mut v = Vec::new();
+        for e in ["sm4.mode.encrypt(mode,iv,data)", "sm4.mode.decrypt(mode,iv,data)"] {
+            for mode in 0..4u8 {
+                for t in 0..=16usize {
+                    for last in [0xFFu8, 0xFE, 0xFD, 0xF0] {
+                        for len in [0usize, 1, 15, 16, 17, 31, 32, 33, 47, 48, 49, 64, 100, 272] {
+                            let mut iv = expand_bytes((t as u64) << 8 | last as u64, 16);
+                            for i in 0..t {
+                                iv[15 - i] = 0xFF;
+                            }
+                            if t > 0 {
+                                iv[15] = last;
+                            }
+                            let mut input = vec![mode];
+                            input.extend_from_slice(&iv);
+                            input.extend_from_slice(&expand_bytes(len as u64 ^ 0x5151, len));
+                            v.push(Call { entry: e.to_string(), input: Hex(input) });
+                        }
+                    }
+                }
+            }
+        }
+        v
     }, check_call);
 
     ctx.exhaustive("sm2_boundary_private_keys", "d in {0, 1, 2, n-3, n-2, n-1, n, n+1, p, 2^255, 2^256-1}: constructor outcome, then sign / decrypt / encrypt under a retry budget", || {
